@@ -228,6 +228,7 @@ def render(deck, ints=None, canonical=False, include=True):
     files = {}
     root_lines = []
     ninc = 0
+    use_alias = []
 
     def block_text(bl):
         lines = []
@@ -256,7 +257,12 @@ def render(deck, ints=None, canonical=False, include=True):
                     inner = run[1:]
                     f2 = "sub/nested%d.inc" % ninc
                     files[f2] = "\n".join(block_text(inner)) + "\n"
-                    files[fname] = "\n".join(block_text(run[:1]) + ["INCLUDE", " '%s' /" % f2]) + "\n"
+                    ref = f2
+                    if ch.chance(1, 2, "R7-paths-alias"):
+                        # the same file named through a PATHS alias
+                        use_alias.append(True)
+                        ref = "$INCDIR/nested%d.inc" % ninc
+                    files[fname] = "\n".join(block_text(run[:1]) + ["INCLUDE", " '%s' /" % ref]) + "\n"
                 else:
                     files[fname] = "\n".join(block_text(run)) + ("\n" if ch.n(2) else "")
                 inc = ["INCLUDE" if ch.n(2) else "include", " '%s' /" % fname]
@@ -265,5 +271,7 @@ def render(deck, ints=None, canonical=False, include=True):
             else:
                 root_lines += block_text([blocks[i]])
                 i += 1
+    if use_alias:
+        root_lines = ["PATHS", " 'INCDIR' 'sub' /", "/"] + root_lines
     files["ROOT.DATA"] = "\n".join(root_lines) + "\n"
     return files, "ROOT.DATA", dict(ch.used)
